@@ -282,7 +282,7 @@ func checkC06(c *Ctx, r *Report, tier string) {
 	r.Rule("C06.R2", "key provenance: every key handed to txn.Get/Set, batch.Set/Delete or iterator.Seek in a method of the log store derives from a group-embedding key constructor or from Item().Key() of a prefix-bounded iterator (the package-level node-id accessors use a constant key: named exception)", 11)
 	r.Rule("C06.R3", "DeleteGroup covers every key family: for each key constructor that reaches a Set, the call tree of DeleteGroup contains a Delete of that family or a prefix sweep whose prefix is a prefix of the family", 3)
 	r.Rule("C06.R4", "batch commit discipline: Cancel deferred, every return after batch creation returns Flush()'s value or a tested error, no batch result discarded", 8)
-	r.Rule("C06.R5", "wipe before write: within one batch function no full-range sweep of the entry family is reachable after a Set into the same family (Badger's batch is last-write-wins per key and the sweep is computed from the committed view)", 2)
+	r.Rule("C06.R5", "wipe before write: within one batch function no full-range sweep of the entry family is reachable after a Set into the same family (Badger's batch is last-write-wins per key and the sweep is computed from the committed view); a wipe also discards the cached last index", 4)
 	r.Rule("C06.R7", "the key codec is order preserving and agrees with its decoder: the entry index is written big-endian at the offsets where the decoder reads it big-endian, behind the group id", 2)
 	r.Rule("C06.R8", "boundary conditions agree with the reference MemoryStorage: Entries returns ErrCompacted iff lo < first and ErrUnavailable iff hi > last+1; Term returns ErrCompacted iff i < first-1; CreateSnapshot returns ErrSnapOutOfDate iff i < first; the size limit never drops the first entry", 5)
 	w := newWal(c)
@@ -471,6 +471,12 @@ func checkC06(c *Ctx, r *Report, tier string) {
 	c06R7(c, r, w)
 	// R8
 	c06R8(c, r, w)
+	r.Rule("C06.R6", "cache writes follow disk writes: every path from an entry write to a successful return updates (or discards) the cached last index", 3)
+	walCacheFollowsWrites(c, r, "C06.R6")
+	r.Rule("C06.R9", "compaction keeps the snapshot's anchor entry (sweep bound exclusive, bound = snapshot index)", 2)
+	walCompactionKeepsAnchor(c, r, "C06.R9")
+	r.Rule("C06.R10", "an iterator's key buffer is never retained: Item().Key() is copied (string conversion) or only read before the iterator advances", 4)
+	walIteratorKeyNotRetained(c, r, "C06.R10")
 }
 
 // familyPrefix: what the constructor copies to offset 0 of its buffer.
@@ -594,6 +600,28 @@ func c06R5(c *Ctx, r *Report, w *walInfo) {
 					before = s
 				}
 			}
+			// the cached last index must not survive a wipe of the log
+			discard := false
+			eachInstr(f, func(i ssa.Instruction) {
+				switch y := i.(type) {
+				case *ssa.Call:
+					id := callID(&y.Call)
+					if (id.Name == "Delete" || id.Name == "Store") && id.Recv == "Map" && id.Pkg == "sync" {
+						for _, a := range y.Call.Args {
+							if mi, ok := a.(*ssa.MakeInterface); ok {
+								if g := globalOf(mi.X); g != nil && strings.Contains(strings.ToLower(g.Name()), "lastindex") {
+									discard = true
+								}
+							}
+						}
+					}
+				case *ssa.Store:
+					if fld := fieldOfAddr(y.Addr); fld != nil && fld.Name() == "cache" {
+						discard = true
+					}
+				}
+			})
+			r.Check(discard, "C06.R5", fnName(f), cons+"-cache", c.Pos(sw.Pos()), "a wipe of the whole log discards (or resets) the cached last index")
 			if before != nil {
 				r.Bad("C06.R5", fnName(f), cons, c.Pos(sw.Pos()), "a sweep of the whole entry range follows the entry write at "+c.Pos(before.Pos())+" in the same batch: a key written by this batch that already exists on disk (the snapshot anchor) is deleted again")
 			} else {
